@@ -2,6 +2,8 @@ package bft
 
 import (
 	"bytes"
+
+	"github.com/canopy-network/canopy/lib"
 )
 
 // C14: double-sign evidence (bft.ProcessDSE, DoubleSignEvidence.CheckBasic/Check,
@@ -9,6 +11,7 @@ import (
 // signature functionality. Two fully symbolic certificates A and B over a committee of n
 // validators (symbolic powers). Validator 0 is honest: it signed at most one payload per view.
 // Everybody else may be Byzantine. Whatever evidence is fabricated, validator 0 is never named.
+// The committee the node is in NOW differs from the one that signed the evidence.
 
 func zzDSEWorld(n int) (b *BFT, ctl *zzCtl, ev *DoubleSignEvidence, inA, inB []bool) {
 	ps := make([]uint64, n)
@@ -18,7 +21,16 @@ func zzDSEWorld(n int) (b *BFT, ctl *zzCtl, ev *DoubleSignEvidence, inA, inB []b
 	vs := zzValSet(ps)
 	ctl = &zzCtl{valSet: vs, minEvidenceHeight: zzU64("minEvidenceHeight")}
 	cur := zzView("cur")
-	b = &BFT{View: cur, Controller: ctl, log: zzLog{}, ValidatorSet: vs}
+	// the node's CURRENT committee is another one than the committee of the evidence's root height
+	// (same validators, every slot moved by one): bitmap positions of old certificates must be
+	// resolved against the historical committee the controller returns, never against this one
+	now := &lib.ConsensusValidators{}
+	for i := range ps {
+		now.ValidatorSet = append(now.ValidatorSet, &lib.ConsensusValidator{PublicKey: zzPub((i + 1) % n), VotingPower: ps[(i+1)%n]})
+	}
+	current, errNow := lib.NewValidatorSet(now)
+	zzAssume(errNow == nil)
+	b = &BFT{View: cur, Controller: ctl, log: zzLog{}, ValidatorSet: current}
 	A, B := zzQC("A", n), zzQC("B", n)
 	ev = &DoubleSignEvidence{VoteA: A, VoteB: B}
 	pa, pb := A.SignBytes(), B.SignBytes()
